@@ -69,6 +69,7 @@ def _child(sc, wfd):
             with open(os.path.join(tmp, name), 'w', encoding='utf-8', newline='') as f:
                 f.write(content)
         argv = [a.replace('{tmp}', tmp) for a in sc['argv']]
+        res['argv'] = list(sc['argv'])
         out_path = os.path.join(tmp, '.stdout')
         err_path = os.path.join(tmp, '.stderr')
         sys.stdout = open(out_path, 'w', encoding='utf-8', errors='strict')
